@@ -5,6 +5,16 @@ from sx import plspec
 from . import common as C
 
 
+
+def _clear_caches(ns_):
+    """empty the configurator-level caches if the current tree has any (lru_cache on the class, pinned tree); a no-op for per-instance caches"""
+    for name in ("ge_polyhedron", "leafs"):
+        f = ns_.cc.StingyConfigurator.__dict__.get(name)
+        f = getattr(f, "fget", f)
+        cc_ = getattr(f, "cache_clear", None)
+        if cc_ is not None:
+            cc_()
+
 def _tup(x):
     return tuple(_tup(y) for y in x) if isinstance(x, (list, tuple)) else x
 
@@ -41,9 +51,9 @@ def observe(spec, inputs):
                 out["prios_equal"] = (m0.default_prios == m2.default_prios)
                 out["d0"] = sorted((str(k), [str(v.id) for v in o[0].default]) for k, o in nodes0.items() if getattr(o[0], "default", None))
                 out["d2"] = sorted((str(k), [str(v.id) for v in o[0].default]) for k, o in nodes2.items() if getattr(o[0], "default", None))
-                n.cc.StingyConfigurator.ge_polyhedron.fget.cache_clear()
+                _clear_caches(n)
                 P0 = m0.ge_polyhedron
-                n.cc.StingyConfigurator.ge_polyhedron.fget.cache_clear()
+                _clear_caches(n)
                 P2 = m2.ge_polyhedron
                 out["poly_equal"] = bool(numpy.asarray(P0).tolist() == numpy.asarray(P2).tolist() and [v.id for v in P0.variables] == [v.id for v in P2.variables]
                                          and list(P0.default_prio_vector) == list(P2.default_prio_vector))
